@@ -21,6 +21,9 @@ pub struct Case {
     /// the NaN slice: (group key, value text) rows for `SELECT g, MIN(r), MAX(r), COUNT(r) FROM n GROUP BY g` over a REAL column fed as text
     #[serde(default)]
     pub nan_rows: Option<Vec<(u8, String)>>,
+    /// the accuracy slice: (group key, REAL text, INT text) rows for VARIANCE / STDDEV / AVG / SUM over values that are not dyadic or far from zero
+    #[serde(default)]
+    pub var_rows: Option<Vec<(u8, String, String)>>,
 }
 
 pub struct C04;
@@ -89,6 +92,13 @@ impl<'a> AggGen<'a> {
     }
 
     fn numeric_arg(&self, t: &mut Tape) -> E {
+        if t.chance(1, 12) {
+            // a value that is an INT on some rows and a REAL on others
+            if let Some(c) = self.col_of(t, &[Ty::Int]) {
+                let (a, b) = if t.chance(1, 2) { (E::Int(t.range(0, 2)), E::Real("0.5".into())) } else { (E::Real("1.5".into()), E::Int(t.range(0, 2))) };
+                return E::Case(vec![(E::bin(BinOp::Gt, c, E::Int(t.range(0, 2))), a)], Box::new(b));
+            }
+        }
         let c = self.col_of(t, &[Ty::Int, Ty::Real]).unwrap_or(E::Int(1));
         let ty = if let E::Col(n) = &c { self.table.cols.iter().find(|x| &x.0 == n).map(|x| x.1) } else { None };
         if t.chance(1, 5) {
@@ -207,6 +217,23 @@ pub fn gen_aggregate_query(t: &mut Tape, table: &DataTable, ctx: &Ctx, order_sen
     if items.is_empty() {
         items.push((E::Agg("COUNT".into(), false, vec![]), Some("a0".into())));
     }
+    // now and then a wrapper that combines a COUNT with a plain INT key column (SUM(x) + k): the right value or an error
+    let int_keys: Vec<String> = q.group_by.iter().filter_map(|k| if let E::Col(n) = k { if table.cols.iter().any(|c| &c.0 == n && c.1 == Ty::Int) { Some(n.clone()) } else { None } } else { None }).collect();
+    if !int_keys.is_empty() && t.chance(1, 8) {
+        for (e, _) in items.iter_mut() {
+            if matches!(e, E::Agg(n, _, _) if n == "COUNT") {
+                let key = E::col(t.pick(&int_keys).as_str());
+                let agg = e.clone();
+                *e = match t.draw(4) {
+                    0 => E::bin(*t.pick(&[BinOp::Add, BinOp::Mul, BinOp::Sub]), agg, key),
+                    1 => E::bin(*t.pick(&[BinOp::Add, BinOp::Mul, BinOp::Sub]), key, agg),
+                    2 => E::call("greatest", vec![key, agg]),
+                    _ => E::bin(BinOp::Gt, agg, key),
+                };
+                break;
+            }
+        }
+    }
     t.shuffle(&mut items);
     q.items = items;
     if ctx.excluded("c04_group_without_entry") && !creates_entry(&q) {
@@ -316,6 +343,36 @@ fn item_signature(e: &E) -> String {
 }
 
 /// Compares the real aggregate output with the model table.
+/// does the expression contain an aggregate and, outside the aggregate's arguments, a column reference?
+pub fn wrapper_refers_to_column(e: &E) -> bool {
+    fn has_agg(e: &E) -> bool {
+        match e {
+            E::Agg(_, _, _) => true,
+            E::Neg(a) | E::Not(a) | E::Cast(a, _) | E::Extract(_, a) => has_agg(a),
+            E::Bin(_, a, b) | E::Index(a, b) => has_agg(a) || has_agg(b),
+            E::Is { l, r, .. } => has_agg(l) || has_agg(r),
+            E::In { x, list, .. } => has_agg(x) || list.iter().any(has_agg),
+            E::Call(_, args) | E::Array(args) => args.iter().any(has_agg),
+            E::Case(arms, other) => arms.iter().any(|(c, v)| has_agg(c) || has_agg(v)) || has_agg(other),
+            _ => false,
+        }
+    }
+    fn has_col_outside(e: &E) -> bool {
+        match e {
+            E::Agg(_, _, _) => false,
+            E::Col(_) => true,
+            E::Neg(a) | E::Not(a) | E::Cast(a, _) | E::Extract(_, a) => has_col_outside(a),
+            E::Bin(_, a, b) | E::Index(a, b) => has_col_outside(a) || has_col_outside(b),
+            E::Is { l, r, .. } => has_col_outside(l) || has_col_outside(r),
+            E::In { x, list, .. } => has_col_outside(x) || list.iter().any(has_col_outside),
+            E::Call(_, args) | E::Array(args) => args.iter().any(has_col_outside),
+            E::Case(arms, other) => arms.iter().any(|(c, v)| has_col_outside(c) || has_col_outside(v)) || has_col_outside(other),
+            _ => false,
+        }
+    }
+    has_agg(e) && has_col_outside(e)
+}
+
 pub fn compare_table(query: &Select, expected: &TableOutcome, real: &RunOut, context: &str) -> Result<u64, Failure> {
     let records = real.records();
     let having = if query.having.is_some() { "+having" } else { "" };
@@ -339,6 +396,10 @@ pub fn compare_table(query: &Select, expected: &TableOutcome, real: &RunOut, con
             }
         }
         TableOutcome::Rows(rows) => {
+            if real.result.is_err() && query.items.iter().any(|(e, _)| wrapper_refers_to_column(e)) {
+                // a wrapper that mixes the aggregate with a group key column: the right value or an error, never another value
+                return Ok(1);
+            }
             if let Err(e) = &real.result {
                 return Err(Failure::new(format!("unexpected-error{}", having), format!("the query reported an error ({}) but every cell has a value\n  {}", e, context)));
             }
@@ -453,6 +514,91 @@ fn check_nan_slice(rows: &[(u8, String)], ctx: &Ctx, obs: &mut Obs) -> Result<()
     Ok(())
 }
 
+/// VARIANCE / STDDEV / AVG / SUM over values that are not dyadic rationals or lie far from zero. INT: the cells must agree with
+/// exact integer arithmetic within a tolerance that scales with the result (0 for a spread of 1 around 1e8 fails). REAL: a
+/// non-negative number within a tolerance that scales with the sum of squares (NaN or a negative variance fails).
+fn check_var_slice(rows: &[(u8, String, String)], ctx: &Ctx, obs: &mut Obs) -> Result<(), Failure> {
+    obs.label("accuracy-slice");
+    let defs = "CREATE TABLE v(line = '^g=([0-9]);r=([^;]*);i=([^;]*);', line[1] => g INT, line[2] => r REAL, line[3] => i INT);";
+    let tables = build_tables(defs).map_err(|e| Failure::new("definition-rejected", e))?;
+    let query = "SELECT g, VARIANCE(r) AS vr, STDDEV(r) AS sr, AVG(r) AS ar, SUM(r) AS tr, VARIANCE(i) AS vi, STDDEV(i) AS si, COUNT(*) AS n FROM v GROUP BY g";
+    let statement = parse_statement(query).map_err(|e| Failure::new("query-rejected", e))?;
+    let lines: Vec<String> = rows.iter().map(|(g, r, i)| format!("g={};r={};i={};", g, r, i)).collect();
+    let files = scratch_files(ctx, "c04v", &[lines_to_bytes(&lines)]);
+    let out = run_batch(&tables, &statement, &files, RunOptions::default()).map_err(|p| Failure::new(format!("panic: {}", crate::run::panic_class(&p)), format!("panicked: {}\n  lines {:?}", p, lines)))?;
+    let context = format!("query: {}\n  table: {}\n  lines: {:?}\n  output: {:?}", query, defs, lines, out.lines);
+    if out.result.is_err() {
+        return Err(Failure::new("accuracy-slice: error", format!("{:?}\n  {}", out.result, context)));
+    }
+    let mut groups: std::collections::BTreeMap<u8, (Vec<f64>, Vec<i64>)> = std::collections::BTreeMap::new();
+    for (g, r, i) in rows {
+        let e = groups.entry(*g).or_default();
+        if let Ok(v) = r.parse::<f64>() {
+            e.0.push(v);
+        }
+        if let Ok(v) = i.parse::<i64>() {
+            e.1.push(v);
+        }
+    }
+    let records: Vec<J> = out.records().iter().filter_map(|r| parse_json(r).ok()).collect();
+    let num = |j: Option<&J>| -> Option<f64> {
+        match j {
+            Some(J::Num(n)) => n.parse::<f64>().ok(),
+            _ => None,
+        }
+    };
+    for (g, (reals, ints)) in &groups {
+        let rec = match records.iter().find(|r| num(r.get("g")) == Some(*g as f64)) {
+            Some(r) => r,
+            None => return Err(Failure::new("accuracy-slice: group-missing", format!("group {} not printed\n  {}", g, context))),
+        };
+        let judge = |what: &str, got: Option<f64>, want: f64, tol: f64| -> Result<(), Failure> {
+            match got {
+                Some(x) if x.is_finite() && (x - want).abs() <= tol => Ok(()),
+                other => Err(Failure::new(
+                    format!("accuracy-slice: {}", what),
+                    format!("group {}: {} printed {:?}, a two-pass computation gives {} (tolerance {:e}); values {:?} / {:?}\n  {}", g, what, other, want, tol, reals, ints, context),
+                )),
+            }
+        };
+        if !reals.is_empty() {
+            obs.nontrivial = true;
+            let n = reals.len() as f64;
+            let mean = reals.iter().sum::<f64>() / n;
+            let var = reals.iter().map(|x| (x - mean) * (x - mean)).sum::<f64>() / n;
+            // REAL: how accurate a variance must be is not stated; the tolerance scales with the sum of squares (a one-pass
+            // formula is accepted), but the result must be a number and not negative
+            let scale = reals.iter().map(|x| x * x).sum::<f64>().max(1.0);
+            let tol = 1e-9 * scale;
+            for key in ["vr", "sr"] {
+                match num(rec.get(key)) {
+                    Some(x) if x.is_finite() && x >= 0.0 => {}
+                    other => {
+                        return Err(Failure::new(
+                            "accuracy-slice: variance / stddev of REALs is not a non-negative number",
+                            format!("group {}: {} printed {:?} for the values {:?}\n  {}", g, key, other.or(rec.get(key).map(|_| f64::NAN)), reals, context),
+                        ))
+                    }
+                }
+            }
+            judge("variance(real)", num(rec.get("vr")), var, tol)?;
+            judge("stddev(real)", num(rec.get("sr")), var.sqrt(), tol.sqrt().max(1e-9))?;
+            judge("avg(real)", num(rec.get("ar")), mean, 1e-12 * (1.0 + mean.abs()))?;
+            judge("sum(real)", num(rec.get("tr")), mean * n, 1e-12 * (1.0 + (mean * n).abs()))?;
+        }
+        if !ints.is_empty() {
+            let n = ints.len() as i128;
+            let s: i128 = ints.iter().map(|x| *x as i128).sum();
+            let q: i128 = ints.iter().map(|x| (*x as i128) * (*x as i128)).sum();
+            let var = (n * q - s * s) as f64 / (n * n) as f64;
+            let tol = 1e-6 * var + 1e-9;
+            judge("variance(int)", num(rec.get("vi")), var, tol)?;
+            judge("stddev(int)", num(rec.get("si")), var.sqrt(), tol.sqrt())?;
+        }
+    }
+    Ok(())
+}
+
 impl Property for C04 {
     type Case = Case;
 
@@ -503,12 +649,37 @@ impl Property for C04 {
         } else {
             None
         };
-        Case { table, lines, query, nan_rows }
+        let var_rows = if nan_rows.is_none() && t.chance(1, 15) {
+            let n = 2 + t.draw(7);
+            let family = t.draw(3);
+            Some(
+                (0..n)
+                    .map(|_| {
+                        let r = match family {
+                            0 => *t.pick(&["0.1", "0.1", "0.2", "0.3", "0.7", "1.1", ""]),
+                            1 => *t.pick(&["100000000.5", "100000001.5", "100000002.5", "100000000.5", ""]),
+                            _ => *t.pick(&["0.1", "1e-7", "123456.789", "-0.3", "2.5", ""]),
+                        };
+                        let i = match family {
+                            1 => *t.pick(&["100000000", "100000001", "100000002", "100000001", ""]),
+                            _ => *t.pick(&["3", "4", "1000000007", "-5", "0", ""]),
+                        };
+                        (t.draw(2) as u8, r.to_string(), i.to_string())
+                    })
+                    .collect(),
+            )
+        } else {
+            None
+        };
+        Case { table, lines, query, nan_rows, var_rows }
     }
 
     fn check(&self, case: &Case, ctx: &Ctx, obs: &mut Obs) -> Result<(), Failure> {
         if let Some(rows) = &case.nan_rows {
             return check_nan_slice(rows, ctx, obs);
+        }
+        if let Some(rows) = &case.var_rows {
+            return check_var_slice(rows, ctx, obs);
         }
         let defs = case.table.definition();
         let tables = build_tables(&defs).map_err(|e| Failure::new("definition-rejected", format!("{}: {}", defs, e)))?;
